@@ -86,6 +86,23 @@ pub broadcast proof fn axiom_bm_len_bound(v: &BytesMut)
 pub proof fn axiom_utf8_v4()
     ensures utf8(seq!['v', '4']) == seq![0x76u8, 0x34u8],
 {}
+/// T12: `str::starts_with(&str)` compares UTF-8 bytes; `str::get(n..)` cuts at byte n when that is a char boundary
+/// (it is one whenever the byte before it is ASCII)
+#[verifier::external_body]
+pub broadcast proof fn axiom_starts_with_str(s: &str, p: &str)
+    ensures #[trigger] pat_prefix::<&str>(s, p) == (utf8(s@).len() >= utf8(p@).len() && utf8(s@).subrange(0, utf8(p@).len() as int) == utf8(p@)),
+{}
+#[verifier::external_body]
+pub broadcast proof fn axiom_str_get_from(s: &str, i: core::ops::RangeFrom<usize>, r: Option<&str>)
+    ensures #[trigger] str_get_rel::<core::ops::RangeFrom<usize>>(s, i, r) ==>
+        (r matches Some(t) ==> i.start <= utf8(s@).len() && utf8(t@) == utf8(s@).subrange(i.start as int, utf8(s@).len() as int))
+        && (r is None ==> !(1 <= i.start <= utf8(s@).len() && utf8(s@)[i.start - 1] < 128)),
+{}
+/// T6'': the UTF-8 encoding of the four ASCII characters "enr:" is 0x65 0x6e 0x72 0x3a
+#[verifier::external_body]
+pub proof fn axiom_utf8_enr()
+    ensures utf8(seq!['e', 'n', 'r', ':']) == seq![0x65u8, 0x6eu8, 0x72u8, 0x3au8],
+{}
 /// T2: ordering of byte slices is lexicographic
 #[verifier::external_body]
 pub broadcast proof fn axiom_slice_ord(a: &[u8], b: &[u8])
@@ -181,7 +198,7 @@ pub broadcast proof fn axiom_ip6_len(a: std::net::Ipv6Addr)
 {}
 
 pub broadcast group group_trusted {
-    axiom_slice_eq, axiom_slice_obeys, axiom_slice_ext, axiom_bytes_from_vec, axiom_bytes_from_vec_obeys, axiom_vec_len_bound, axiom_bm_len_bound, axiom_arr_eq, axiom_arr_obeys, axiom_vec_eq, axiom_vec_obeys, axiom_string_str_eq, axiom_string_str_obeys, axiom_string_refstr_eq, axiom_string_refstr_obeys, axiom_lossy_v4, axiom_slice_ord, axiom_slice_pord_obeys,
+    axiom_slice_eq, axiom_slice_obeys, axiom_starts_with_str, axiom_str_get_from, axiom_slice_ext, axiom_bytes_from_vec, axiom_bytes_from_vec_obeys, axiom_vec_len_bound, axiom_bm_len_bound, axiom_arr_eq, axiom_arr_obeys, axiom_vec_eq, axiom_vec_obeys, axiom_string_str_eq, axiom_string_str_obeys, axiom_string_refstr_eq, axiom_string_refstr_obeys, axiom_lossy_v4, axiom_slice_ord, axiom_slice_pord_obeys,
     axiom_vecu8_ord, axiom_vecu8_ord2, axiom_vecu8_borrow, axiom_vecu8_ext,
     axiom_contains_borrowed, axiom_maps_borrowed, axiom_removed_borrowed, axiom_vecu8_cmp,
     axiom_vec_ref, axiom_str_ref, axiom_vec_of, axiom_vec_from_str, axiom_vec_from_slice, axiom_vec_from_str_obeys, axiom_vec_from_slice_obeys, axiom_array_ref,
